@@ -296,4 +296,58 @@ theorem topLoop_soft {g : Graph} (hwf : WF g) (hac : ¬ Cyclic (T g)) {fuel : Na
       exact ih s' hsub' h1 h2.2.2
     · rw [hvk] at h2; cases h2.1
 
+/-! ### the item named by a reported `CycleError` really lies on a hard ∪ control cycle -/
+
+theorem visit_err_item (g : Graph) : ∀ (fuel : Nat) (vis : List Nat) (item : Nat) (fc : Bool)
+    (st : St) (c : Cyc), (∀ x ∈ vis, Relation.TransGen (R g) x item) →
+    (visit g fuel vis 0 item fc false st).2 = some c → Relation.TransGen (R g) c.item c.item := by
+  intro fuel
+  induction fuel with
+  | zero => intro vis item fc st c _ h; cases h
+  | succ f ih =>
+    intro vis item fc st c hlink h
+    rw [visit_succ] at h
+    by_cases hc : vis.contains item = true
+    · simp only [hc, if_true] at h
+      cases h
+      exact hlink item (by simpa using hc)
+    · by_cases hv : st.visited.contains item = true
+      · simp only [hc, hv, if_true] at h; cases h
+      · simp only [hc, hv] at h
+        have hw0 : wcurOf 0 false = 0 := rfl
+        rw [hw0] at h
+        have hlink' : ∀ n, R g item n → ∀ x ∈ vis ++ [item], Relation.TransGen (R g) x n := by
+          intro n hn x hx
+          rcases List.mem_append.1 hx with hx | hx
+          · exact (hlink x hx).tail hn
+          · simp at hx; subst hx; exact Relation.TransGen.single hn
+        have hout : ∀ (s : St) (c' : Cyc),
+            ((if ((0 : Nat) == 1) = true then ((s, none) : Res) else (s, some c')).2 = some c) → c' = c := by
+          intro s c' hh
+          have : ((0 : Nat) == 1) = false := rfl
+          simp only [this] at hh
+          simpa using hh
+        rcases frame_cases g
+          (fun n fc' wl' s => visit g f (vis ++ [item]) 0 n fc' wl' s) 0 item fc false st with
+          ⟨c', e1, _⟩ | ⟨_, ⟨c', e2, hf⟩ | ⟨_, ⟨c', e3, hf⟩ | ⟨_, hf⟩⟩⟩
+        · have := loop_swallow (fun n s => visit g f (vis ++ [item]) 0 n false true s)
+            (weakAdj g item) st
+          have hsw : ((0 : Nat) == 0) = true := rfl
+          rw [hsw] at e1
+          rw [this] at e1; cases e1
+        · obtain ⟨n, hn, s, _, hs⟩ := loop_some_exists (fun _ => True)
+            (fun _ _ _ _ => trivial) trivial e2
+          rw [hf] at h
+          have := hout _ _ h
+          subst this
+          exact ih _ n false s c' (hlink' n (Or.inl (mem_adj hn))) hs
+        · obtain ⟨n, hn, s, _, hs⟩ := loop_some_exists (fun _ => True)
+            (fun _ _ _ _ => trivial) trivial e3
+          rw [hf] at h
+          have := hout _ _ h
+          subst this
+          exact ih _ n true s c' (hlink' n (Or.inr (mem_ctrl hn))) hs
+        · rw [hf] at h
+          cases fc <;> cases h
+
 end EdbVerif.Topo
